@@ -264,12 +264,18 @@ func applyC13(t *rapid.T, base World, kind string) (World, bool) {
 	case "edit:subjectUniqueId":
 		if l.SubjectUID == nil {
 			l.SubjectUID = core.Bin([]byte{1, 2, 3})
+			if rapid.Bool().Draw(t, "suid-empty") {
+				l.SubjectUID = &core.Raw{Kind: "empty"} // present with zero bytes is not the same certificate as absent
+			}
 		} else {
 			l.SubjectUID = core.Bin(append(append([]byte{}, l.SubjectUID.Value()...), 9))
 		}
 	case "edit:issuerUniqueId":
 		if l.IssuerUID == nil {
 			l.IssuerUID = core.Bin([]byte{4, 5})
+			if rapid.Bool().Draw(t, "iuid-empty") {
+				l.IssuerUID = &core.Raw{Kind: "empty"}
+			}
 		} else {
 			l.IssuerUID = nil
 		}
